@@ -253,3 +253,9 @@ func VerifH_C11_psync_v2() {
 		vapi.Assert("psync2.ban-only-for-invalid-blocks", anyInvalid)
 	}
 }
+
+//verif:harness prop=C11 tier=thorough replay=interp go=sched preempt=2 timers=3 require=synced,failed bounds="as VerifH_C11_psync_v1 with ≤2 delays, ticker firing ≤3 times"
+func VerifH_C11_psync_v1_deep() { VerifH_C11_psync_v1() }
+
+//verif:harness prop=C11 tier=thorough replay=interp go=sched preempt=3 timers=3 require=synced,failed,banned bounds="as VerifH_C11_psync_v2 with ≤3 delays, ticker firing ≤3 times"
+func VerifH_C11_psync_v2_deep() { VerifH_C11_psync_v2() }
